@@ -69,6 +69,8 @@ def make_data(rng, kind, P, Q, centre_hint):
     d = {"kind": kind}
     if kind in ("arc", "origin", "angle", "angle-neg", "oncurve-circle"):
         theta = rng.uniform(0.4, 2.7) if kind != "origin" else rng.uniform(0.4, 2.5)
+        if kind in ("angle", "angle-neg") and rng.random() < 0.35:
+            theta = rng.uniform(3.4, 5.6)  # sector angles above pi: the long way round
         M = (P + Q) / 2
         C = M - u * (L / 2) / math.tan(theta / 2)
         n = np.cross(u, e)
